@@ -248,6 +248,31 @@ pub struct KnownFinding {
     pub commit: Option<String>,
 }
 
+/// Known-finding signature match; `*` in the pattern matches any run of characters.
+pub fn sig_matches(pattern: &str, sig: &str) -> bool {
+    if !pattern.contains('*') {
+        return pattern == sig;
+    }
+    let parts: Vec<&str> = pattern.split('*').collect();
+    let mut rest = sig;
+    for (i, part) in parts.iter().enumerate() {
+        if i == 0 {
+            if !rest.starts_with(part) {
+                return false;
+            }
+            rest = &rest[part.len()..];
+        } else if i == parts.len() - 1 {
+            return rest.ends_with(part);
+        } else {
+            match rest.find(part) {
+                Some(pos) => rest = &rest[pos + part.len()..],
+                None => return false,
+            }
+        }
+    }
+    true
+}
+
 pub fn load_known_findings() -> Vec<KnownFinding> {
     let p = verif_dir().join("known_findings.json");
     match std::fs::read(&p) {
@@ -410,9 +435,23 @@ pub fn run_check(check: &dyn Check, args: &CheckArgs) -> i32 {
     let mut known_lines: BTreeSet<String> = BTreeSet::new();
     let replay_dir = verif_dir().join("replays");
     let mut reported: Vec<Value> = Vec::new();
-    let min_budget = Duration::from_secs(if args.tier == Tier::Quick { 45 } else { 180 });
+    let min_budget = Duration::from_secs(if args.tier == Tier::Quick { 30 } else { 120 });
+    let min_total_deadline = Instant::now() + Duration::from_secs(if args.tier == Tier::Quick { 90 } else { 600 });
+    let mut seen_min_sigs: BTreeSet<String> = BTreeSet::new();
     for (_sig, found) in by_sig {
-        let deadline = Instant::now() + min_budget;
+        // a violation that already matches a listed finding needs no minimisation
+        if let Some(k) = known.iter().find(|k| {
+            k.property == check.id() && k.status == "open" && sig_matches(&k.signature, &found.violation.signature)
+        }) {
+            known_lines.insert(format!(
+                "KNOWN-FINDING: property={} signature={} {}",
+                check.id(),
+                k.signature,
+                k.what
+            ));
+            continue;
+        }
+        let deadline = (Instant::now() + min_budget).min(min_total_deadline);
         let (scenario, violation) = minimise(check, &found, &env, deadline);
         let scenario = {
             let c = check.concretize(&scenario, &env);
@@ -423,10 +462,13 @@ pub fn run_check(check: &dyn Check, args: &CheckArgs) -> i32 {
         };
         // A minimised scenario may have a different (more specific or less specific) signature;
         // known-finding matching uses the minimised one, falling back to the original.
+        if !seen_min_sigs.insert(violation.signature.clone()) {
+            continue;
+        }
         let matched = known.iter().find(|k| {
             k.property == check.id()
                 && k.status == "open"
-                && (k.signature == violation.signature || k.signature == found.violation.signature)
+                && (sig_matches(&k.signature, &violation.signature) || sig_matches(&k.signature, &found.violation.signature))
         });
         if let Some(k) = matched {
             known_lines.insert(format!(
